@@ -1,0 +1,109 @@
+//go:build verif
+
+package keeper
+
+// Contracts for the deductive checker in /verif (comment-only; compiled only with -tags verif).
+// C08 / C10, the bank message server wrapper: Send, MultiSend, NewMsgServerImpl and the routing of sendCoinsWithERC20.
+// Lib specs: /verif/specs/c08s/62_banksrv.spec (assumed SDK send keeper), c08g (guards), vesting (bank state).
+
+/*@
+alias MsgSrvB github.com/haqq-network/haqq/x/bank/keeper.msgServer
+
+// a coin of denomination d takes the ERC20 route iff a token pair is registered for d, found and enabled (erc20 registry reads)
+specfunc Routed(ek ERC20KeeperB, ctx github.com/cosmos/cosmos-sdk/types.Context, d string) bool =
+        len(erc20_pair_id(ek, ctx, d)) != 0 && erc20_pair_found(ek, ctx, erc20_pair_id(ek, ctx, d))
+        && erc20_pair_val(ek, ctx, erc20_pair_id(ek, ctx, d)).Enabled
+// the native (non-ERC20) part of a request
+specfunc NativePart(ek ERC20KeeperB, ctx github.com/cosmos/cosmos-sdk/types.Context, amt Coins, nat Coins) bool =
+        forall d string :: nat[d] == ite(Routed(ek, ctx, d), 0, amt[d])
+specfunc AllNative(ek ERC20KeeperB, ctx github.com/cosmos/cosmos-sdk/types.Context, amt Coins) bool =
+        forall d string :: amt[d] != 0 ==> !Routed(ek, ctx, d)
+
+// C08 / C10 routing: every coin of the request is handled exactly once. The coins handed to the SDK keeper by the final SendCoins are
+// exactly the non-ERC20 part of the request (each native coin once, no routed coin, nothing else); a routed coin goes through
+// subUnlockedERC20Tokens once (c08g clause `own`: the current element, with the sender / recipient of this send). With ERC20 disabled, or
+// when no coin of the request is routed, the send IS the SDK send: balances move by exactly amt, locked coins respected, no other state touched
+// before it. The recipient account is created only right after a successful ERC20 leg and only if it does not exist.
+extend func (msgServer).sendCoinsWithERC20
+    let nat = fromraw__Array_Str_Int_(nativeCoins)
+    call SendCoins#1 requires disabled_all: !erc20_isenabled(k.ek, ctx) && bctx == ctx && coins == amt
+            && bank_bal == old(bank_bal) && auth_accs == old(auth_accs) && bank_supply == old(bank_supply)
+    call SendCoins#2 requires native_rest: bctx == ctx && NativePart(k.ek, ctx, amt, coins)
+    call SendCoins#3 requires once: false
+    call subUnlockedERC20Tokens requires routed: ctx == old(ctx) && Routed(k.ek, ctx, coin.Denom) && tokenPair == erc20_pair_val(k.ek, ctx, erc20_pair_id(k.ek, ctx, coin.Denom))
+    call SetAccount requires after_leg: ctx == old(ctx) && ak == k.ak && ret(subUnlockedERC20Tokens, 1, 0) == nil && !acc_has(k.ak, ctx, to)
+            && acc == acc_new(k.ak, ctx, to)
+    loop 1 invariant rawlen: len(nativeCoins) >= 0
+    loop 1 invariant distinct: forall a int, b int :: 0 <= a && a < b && b < len(nativeCoins) ==> nativeCoins[a].Denom != nativeCoins[b].Denom
+    loop 1 invariant pos: forall j int :: 0 <= j && j < len(nativeCoins) ==> nativeCoins[j].Amount > 0
+    loop 1 invariant natmap: forall d string :: nat[d] == ite(Routed(k.ek, ctx, d), 0, coins_prefix(amt, #i)[d])
+    loop 1 invariant noleg: (forall j int :: 0 <= j && j < #i ==> !Routed(k.ek, ctx, coins_at(amt, j).Denom))
+            ==> bank_bal == old(bank_bal) && auth_accs == old(auth_accs) && bank_supply == old(bank_supply)
+    loop 1 invariant on: erc20_isenabled(k.ek, ctx)
+    loop 1 back use CoinsPrefixAbsent(amt, #i - 1, coins_at(amt, #i - 1).Denom)
+    ensures sdk_send: (!erc20_isenabled(k.ek, ctx) || AllNative(k.ek, ctx, amt)) && result == nil
+            ==> bank_bal == bank_move(old(bank_bal), from, to, amt) && bank_supply == old(bank_supply)
+                && clte(cadd(amt, old(bank_locked(k.Keeper, ctx, from))), old(bank_bal)[from])
+
+// C08 / C10, MsgSend through the wrapper. The checks of the SDK bank message server are kept, in the SDK's order: every denomination of
+// the request is send-enabled, both addresses parse, the recipient is not a blocked (module) address. Only then the coins go - exactly
+// msg.Amount, from msg.FromAddress (the only signer of a MsgSend) to msg.ToAddress, on the context of the message - through
+// sendCoinsWithERC20, on the unchanged state; success is reported only if that send succeeded; a refused message has no effect.
+// (Valid, positive coins: MsgSend.ValidateBasic, run by baseapp / authz before the handler - as for the SDK server; the Coins
+// abstraction assumes a valid list.) With ERC20 disabled or no routed denomination in the request the effect is exactly the SDK's send.
+func (msgServer).Send
+    let sctx = ctx_unwrap(goCtx)
+    let sender = addr_of_bech32(msg.FromAddress)
+    let rcpt = addr_of_bech32(msg.ToAddress)
+    let enabled = forall d string :: msg.Amount[d] != 0 ==> bank_denom_enabled(k.Keeper, sctx, d)
+    let checks = enabled && bech32_ok(msg.FromAddress) && bech32_ok(msg.ToAddress) && !bank_blocked(k.Keeper, rcpt)
+    requires keeper: k.Keeper != nil && k.ek != nil && k.ak != nil && msg != nil
+    modifies bank_bal, bank_supply, auth_accs
+    call sendCoinsWithERC20 requires args: k == old(k) && ctx == sctx && from == sender && to == rcpt && amt == msg.Amount
+    call sendCoinsWithERC20 requires checked: checks && *msg == old(*msg)
+            && bank_bal == old(bank_bal) && auth_accs == old(auth_accs) && bank_supply == old(bank_supply)
+    call sendCoinsWithERC20#2 requires once: false
+    ensures checks_kept: result.1 == nil ==> old(checks)
+    ensures sent: result.1 == nil ==> result.0 != nil && ret(sendCoinsWithERC20, 1, 0) == nil
+    ensures rejected: old(!(checks)) ==> result.1 != nil && bank_bal == old(bank_bal) && auth_accs == old(auth_accs) && bank_supply == old(bank_supply)
+    ensures sdk_send: (!erc20_isenabled(k.ek, sctx) || AllNative(k.ek, sctx, msg.Amount)) && result.1 == nil
+            ==> bank_bal == bank_move(old(bank_bal), sender, rcpt, msg.Amount) && bank_supply == old(bank_supply)
+                && clte(cadd(msg.Amount, old(bank_locked(k.Keeper, sctx, sender))), old(bank_bal)[sender])
+    ensures msg_kept: *msg == old(*msg)
+
+// MsgMultiSend through the wrapper: a copy of the SDK server's method - NO ERC20 leg (the erc20 keeper is not consulted, nothing is
+// converted). Every input's denominations are send-enabled, no output address is blocked; then the SDK keeper's InputOutputCoins runs
+// once, with the inputs and outputs of the message, on the message's context and the unchanged state. Acceptance and the resulting
+// balances are exactly those of InputOutputCoins (ioc_ok / ioc_bal: the SDK's debit of the inputs - which enforces LockedCoins -
+// and credit of the outputs); a refused message has no effect.
+func (msgServer).MultiSend
+    let sctx = ctx_unwrap(goCtx)
+    let ins_enabled = forall i int :: 0 <= i && i < len(msg.Inputs)
+            ==> (forall d string :: msg.Inputs[i].Coins[d] != 0 ==> bank_denom_enabled(k.Keeper, sctx, d))
+    let outs_ok = forall j int :: 0 <= j && j < len(msg.Outputs) ==> !bank_blocked(k.Keeper, addr_of_bech32(msg.Outputs[j].Address))
+    requires keeper: k.Keeper != nil && msg != nil
+    modifies bank_bal, auth_accs
+    call InputOutputCoins requires same: bctx == sctx && inputs == msg.Inputs && outputs == msg.Outputs && *msg == old(*msg)
+            && bank_bal == old(bank_bal) && auth_accs == old(auth_accs) && bank_supply == old(bank_supply)
+    call InputOutputCoins requires checked: ins_enabled && outs_ok
+    call InputOutputCoins#2 requires once: false
+    ensures checks_kept: result.1 == nil ==> old(ins_enabled && outs_ok)
+    ensures accepted: (result.1 == nil) == old(ins_enabled && outs_ok && ioc_ok(bank_bal, auth_accs, k.Keeper, sctx, msg.Inputs, msg.Outputs))
+    ensures effect: result.1 == nil ==> result.0 != nil && bank_bal == ioc_bal(old(bank_bal), k.Keeper, sctx, msg.Inputs, msg.Outputs)
+    ensures rejected: old(!(ins_enabled && outs_ok)) ==> result.1 != nil && bank_bal == old(bank_bal) && auth_accs == old(auth_accs)
+    ensures msg_kept: *msg == old(*msg)
+    loop 1 invariant seen: 0 <= #i && #i <= len(msg.Inputs) && msg == old(msg) && *msg == old(*msg) && k == old(k) && goCtx == old(goCtx) && ctx == sctx
+            && (forall i int :: 0 <= i && i < #i ==> (forall d string :: msg.Inputs[i].Coins[d] != 0 ==> bank_denom_enabled(k.Keeper, sctx, d)))
+    loop 2 invariant seen: 0 <= #i && #i <= len(msg.Outputs) && msg == old(msg) && *msg == old(*msg) && k == old(k) && goCtx == old(goCtx) && ctx == sctx
+            && old(ins_enabled)
+            && (forall j int :: 0 <= j && j < #i ==> !bank_blocked(k.Keeper, addr_of_bech32(msg.Outputs[j].Address)))
+
+// wiring: the server handed to the message router wraps exactly the keepers it was given - the erc20 keeper and account keeper used by
+// the ERC20 leg of Send are the ones of the WrappedBaseKeeper, which are the ones passed to NewWrappedBaseKeeper
+func NewMsgServerImpl
+    ensures wrapper: isdyn(result, *MsgSrvB) && dyn(result, *MsgSrvB) != nil && fresh(dyn(result, *MsgSrvB))
+    ensures wiring: dyn(result, *MsgSrvB).WrappedBaseKeeper == keeper
+            && dyn(result, *MsgSrvB).ek == keeper.ek && dyn(result, *MsgSrvB).ak == keeper.ak && dyn(result, *MsgSrvB).Keeper == keeper.Keeper
+func NewWrappedBaseKeeper
+    ensures wiring: result.Keeper == bk && result.ek == ek && result.ak == ak
+@*/
